@@ -27,7 +27,13 @@ def meta_for(typ: str, api: str | None = None) -> dict:
     if typ == "hybrid":
         m["trigger"] = ["tr"]
         m["non-persistent"] = ["ev"]
-    return {"api_version": api or "3.0", "type": typ, "models": {"M": m}}
+    # model P: a parent whose create() returns a child of model M (the grid -> bus pattern); for a hybrid simulator its attribute
+    # roles differ from M's on purpose (nt is the trigger, pe the non-persistent output): mosaik must judge a child by its own model
+    pm = {"public": True, "params": [], "attrs": list(ATTRS)}
+    if typ == "hybrid":
+        pm["trigger"] = ["nt"]
+        pm["non-persistent"] = ["pe"]
+    return {"api_version": api or "3.0", "type": typ, "models": {"M": m, "P": pm}}
 
 
 def desc_line(typ: str) -> str:
@@ -151,7 +157,11 @@ def build_from(sc: dict):
         def start(i):
             s = sims[i]
             ScriptSim.REG[f"S{i}"] = {"ctl": controller, "meta": meta_for(s["type"], s.get("api")), "script": make_script(sc, i)}
-            ents[i] = world.start("S", sim_id=f"S{i}").M.create(2)
+            if s.get("via_parent"):
+                # the entities that get connected are the children (model M) of two parents of another model
+                ents[i] = [par.children[0] for par in world.start("S", sim_id=f"S{i}").P.create(2)]
+            else:
+                ents[i] = world.start("S", sim_id=f"S{i}").M.create(2)
 
         def rec(prefix):
             for i, s in enumerate(sims):
@@ -629,6 +639,10 @@ def gen_scenario(rng: random.Random, groups: bool = True, async_req: bool = Fals
             sc["merge_calls"] = True
     if not rt and rng.random() < 0.15:
         sc["debug"] = True          # World(debug=True): scheduler.step is wrapped to record the execution graph; behaviour must not change
+    if rng.random() < 0.25:
+        for x in sims:
+            if rng.random() < 0.5:
+                x["via_parent"] = True      # its connected entities are children of entities of another model
     if not rt and rng.random() < 0.2:
         # some simulators report an older API version: mosaik drives them through its adapters
         for x in sims:
@@ -908,6 +922,8 @@ def features(sc: dict, outcome: str) -> list:
         f.append("legacy-API simulators (adapters)")
     if sc.get("debug"):
         f.append("debug mode")
+    if any(x.get("via_parent") for x in sc["sims"]):
+        f.append("child entities of another model")
     f.append("lazy" if sc["lazy"] else "eager")
     f.append("cache" if sc["cache"] else "push")
     f.append("outcome:" + " ".join(outcome.split(" ")[:3]))
